@@ -312,12 +312,16 @@ class FoldedData:
             np.arange(self.nsubbands, dtype=np.float64) * chan_width + self.header.fch1
         )
         tsamp = self._fold_period / self.nbins
-        drifts = params.compute_dmdelays(
-            freqs,
-            delta_dm,
-            tsamp,
-            self.header.fch1,
-            in_samples=True,
+        # one delay per sub-band, also for a single sub-band (compute_dmdelays
+        # squeezes a one-element result to a 0-d array)
+        drifts = np.atleast_1d(
+            params.compute_dmdelays(
+                freqs,
+                delta_dm,
+                tsamp,
+                self.header.fch1,
+                in_samples=True,
+            ),
         )
         bin_drifts = drifts - self._fph_shifts
         self._fph_shifts = drifts
